@@ -2,6 +2,7 @@ package c09
 
 import (
 	"context"
+	"errors"
 	"crypto/sha256"
 	"fmt"
 	"path/filepath"
@@ -26,6 +27,8 @@ import (
 type slowStore struct {
 	storage.Store
 	pauses   []time.Duration // 0 = runtime.Gosched
+	fails    []bool          // write k fails (nothing written) iff fails[k%len]; nil = never
+	failed   atomic.Int64
 	n        atomic.Int64
 	inWindow atomic.Int32
 	windows  atomic.Int64
@@ -44,11 +47,21 @@ func (s *slowStore) PutChangeSet(p, st map[string][]byte) error {
 	s.inWindow.Add(1)
 	s.windows.Add(1)
 	pause(s.pauses[i%len(s.pauses)])
-	err := s.Store.PutChangeSet(p, st)
+	var err error
+	if len(s.fails) > 0 && s.fails[(i/2)%len(s.fails)] {
+		// a transient write failure of the backend (disk full, I/O error):
+		// atomic, so nothing of the batch is written
+		err = errInjectedWriteFailure
+		s.failed.Add(1)
+	} else {
+		err = s.Store.PutChangeSet(p, st)
+	}
 	pause(s.pauses[(i+1)%len(s.pauses)])
 	s.inWindow.Add(-1)
 	return err
 }
+
+var errInjectedWriteFailure = errors.New("injected write failure of the lower store")
 
 type regIn struct {
 	key  string
@@ -528,6 +541,7 @@ func runConcCase(run *ev.Run, idx int, tmp string) {
 		nWriters = 2
 	}
 	maxPause := []int{0, 20, 100, 300, 1000}[r.Intn(5)]
+	failPct := []int{0, 0, 0, 15, 40}[r.Intn(5)]
 	dir := filepath.Join(tmp, id)
 	base, err := openBase(kind, dir)
 	if err != nil {
@@ -546,13 +560,18 @@ func runConcCase(run *ev.Run, idx int, tmp string) {
 			}
 			sl.pauses = append(sl.pauses, p)
 		}
+		if failPct > 0 {
+			for i := 0; i < 23; i++ {
+				sl.fails = append(sl.fails, r.Intn(100) < failPct)
+			}
+		}
 		c.slows = append(c.slows, sl)
 		l := storage.NewMemCachedStore(sl)
 		c.layers = append(c.layers, l)
 		lower = l
 	}
 	c.top = c.layers[depth-1]
-	c.shape = fmt.Sprintf("backend=%s layers=%d writers=%d max-pause=%dus", kind, depth, nWriters, maxPause)
+	c.shape = fmt.Sprintf("backend=%s layers=%d writers=%d max-pause=%dus write-failures=%d%%", kind, depth, nWriters, maxPause, failPct)
 	c.notes = append(c.notes, c.shape)
 	for i := 0; i < nStable; i++ {
 		c.top.Put([]byte(stablePre+strconv.Itoa(i)), []byte("s"))
@@ -583,7 +602,7 @@ func runConcCase(run *ev.Run, idx int, tmp string) {
 			} else {
 				n, err = l.Persist()
 			}
-			if err != nil {
+			if err != nil && !errors.Is(err, errInjectedWriteFailure) {
 				flushErr.Add(1)
 			}
 			if n > 0 {
@@ -625,6 +644,9 @@ func runConcCase(run *ev.Run, idx int, tmp string) {
 		c.violation("conc:persist-error", fmt.Sprint(flushErr.Load(), " Persist calls failed"))
 	}
 	// After the last flush the store is quiescent: final reads must see the last writes.
+	for _, sl := range c.slows {
+		sl.fails = nil
+	}
 	for _, l := range c.layers[1:] {
 		_, _ = l.Persist()
 	}
@@ -659,10 +681,12 @@ func runConcCase(run *ev.Run, idx int, tmp string) {
 	case porcupine.Unknown:
 		run.Inconclusive("%s: porcupine timed out on %d events", id, len(ops))
 	}
-	var wins int64
+	var wins, failed int64
 	for _, s := range c.slows {
 		wins += s.windows.Load()
+		failed += s.failed.Load()
 	}
+	run.Obs("conc_injected_lower_store_write_failures", failed)
 	run.Obs("conc_register_events", int64(len(ops)))
 	run.Obs("conc_flushes_of_nonempty_layers", flushes.Load())
 	run.Obs("conc_lower_store_write_windows", wins)
